@@ -89,15 +89,26 @@ func PGPClearSignWithKeyID(message io.Reader, keyFile, passphrase string, hexKey
 		return nil, fmt.Errorf("clear sign: %w", err)
 	}
 
+	// clearsign.Encode signs with the key it is handed, it does not look at
+	// SigningKeyId: select the signing (sub)key the way DetachSign does
+	config := &packet.Config{
+		SigningKeyId: keyID,
+		DefaultHash:  crypto.SHA256,
+	}
+	signer, ok := key.SigningKeyById(config.Now(), keyID)
+	if !ok {
+		return nil, fmt.Errorf("clear sign: %w", errNoValidSigningKey)
+	}
+	if signer.PrivateKey == nil {
+		return nil, fmt.Errorf("clear sign: %w", errNoPrivateKey)
+	}
+
 	var signature bytes.Buffer
 
 	writeCloser, err := clearsign.Encode(
 		&signature,
-		key.PrivateKey,
-		&packet.Config{
-			SigningKeyId: keyID,
-			DefaultHash:  crypto.SHA256,
-		},
+		signer.PrivateKey,
+		config,
 	)
 	if err != nil {
 		return nil, fmt.Errorf("clear sign: %w", err)
@@ -189,6 +200,9 @@ var (
 	errMoreThanOneKey = errors.New("more than one signing key in keyring")
 	errNoKeys         = errors.New("no signing key in keyring")
 	errNoPassword     = errors.New("key is encrypted but no passphrase was provided")
+
+	errNoValidSigningKey = errors.New("no valid signing keys")
+	errNoPrivateKey      = errors.New("signing key doesn't have a private key")
 )
 
 func readSigningKey(keyFile, passphrase string) (*openpgp.Entity, error) {
